@@ -331,6 +331,11 @@ func triggerInput(kv string, key int) string {
 	if kv == "hdr" || kv == "payload" {
 		return `{"url":"ws://upstream","body":{"query":"subscription{v}"}}`
 	}
+	if kv == "ws" {
+		// the inputs differ only by whitespace INSIDE a JSON string value: different upstream subscriptions
+		room := []string{"a b", "ab", "a  b", "a b "}[(key-1)%4]
+		return fmt.Sprintf(`{"url":"ws://upstream","body":{"query":"subscription{v(room:\"%s\")}"}}`, room)
+	}
 	return fmt.Sprintf(`{"url":"ws://upstream","body":{"query":"subscription{v(k:%d)}"}}`, key)
 }
 
@@ -714,8 +719,9 @@ func runSchedule(s Schedule, evw *bufio.Writer) (res Result) {
 		isSync := s.Sync && slot == 1
 		cctx, ccancel := context.WithCancel(context.Background())
 		defer ccancel()
+		var called atomic.Bool // the synchronous call was issued
 		if isSync {
-			// the client of the synchronous subscription going away
+			// the client of the synchronous subscription going away (also before the call: a request that is already dead)
 			xid := gate.ID{K: "x", I: slot}
 			xch := make(chan string, 1)
 			mail[xid] = xch
@@ -728,7 +734,7 @@ func runSchedule(s Schedule, evw *bufio.Writer) (res Result) {
 					for _, l := range ctl.Live() {
 						busy = busy || (l.K == "u" && l.I == slot)
 					}
-					if busy || ctl.Where(id) == "idle" || ctl.Where(id) == "done" {
+					if busy || (ctl.Where(id) == "idle" && called.Load()) || ctl.Where(id) == "done" {
 						ctl.Idle() // not while an update of that subscriber is in flight / the call is not in progress
 						continue
 					}
@@ -745,6 +751,7 @@ func runSchedule(s Schedule, evw *bufio.Writer) (res Result) {
 					ctl.Log("h.cmd", 1, uint64(slot), nil)
 					var err error
 					if isSync {
+						called.Store(true)
 						err = resolver.ResolveGraphQLSubscription(newCtx(cctx, slot, c, s.KV), plan(src, ctl, slot, c, s.KV, s.FK), writers[slot-1])
 						e := uint64(0)
 						if err != nil {
